@@ -8,7 +8,9 @@
 // Everything that happens to a nonce pair or to a signing afterwards goes through the real entry
 // points: MsgSubmitDEs, MsgResetDE, bandtss MsgRequestSignature, MsgSubmitSignature, bandtss
 // MsgActivate, tss MsgUpdateParams (authority), oracle MsgRequestData/MsgReportData with a TSS
-// encoder, app.EndBlocker / app.BeginBlocker.
+// encoder, tunnel MsgCreateTunnel/MsgActivate/MsgDeactivate/MsgTriggerTunnel (TSS route; feed prices and the
+// fee payer's balance are environment), bandtss MsgTransitionGroup from the authority (the outcome of the
+// incoming group's key generation is installed at round 3 as in fam_bandtss), app.EndBlocker / app.BeginBlocker.
 package fam_tsssigning
 
 import (
@@ -18,8 +20,10 @@ import (
 	"math/rand"
 	"sort"
 	"strconv"
+	"strings"
 	"time"
 
+	sdkmath "cosmossdk.io/math"
 	storetypes "cosmossdk.io/store/types"
 
 	abci "github.com/cometbft/cometbft/abci/types"
@@ -28,6 +32,9 @@ import (
 
 	"github.com/bandprotocol/chain/v3/pkg/tss"
 	bandtsstypes "github.com/bandprotocol/chain/v3/x/bandtss/types"
+	feedstypes "github.com/bandprotocol/chain/v3/x/feeds/types"
+	tunneltypes "github.com/bandprotocol/chain/v3/x/tunnel/types"
+	banktypes "github.com/cosmos/cosmos-sdk/x/bank/types"
 	oracletypes "github.com/bandprotocol/chain/v3/x/oracle/types"
 	tsstypes "github.com/bandprotocol/chain/v3/x/tss/types"
 
@@ -95,13 +102,22 @@ type session struct {
 	nreq     int
 	penalty  int
 	oracleOn bool
+	g2        *tsskit.Group     // incoming group of the transition (nil until MsgTransitionGroup)
+	trOn      bool              // the script may start a transition
+	trStarted bool
+	tunOn     bool
+	tunID     uint64
+	tunPrice  int
+	src       map[uint64]string // signing id -> "direct" | "oracle" | "tunnel" | "transition" (from create_signing_request)
 	flags    map[string]bool // what happened (for the interesting rule)
 }
 
 func (s *session) now() int64 { return s.r.Time.Unix() }
 
+const tunSignal = "CS:BAND-USD"
+
 func outc(o world.Outcome) tf.M {
-	m := tf.M{"ok": o.OK(), "pen": []string{}, "ret": []tf.M{}}
+	m := tf.M{"ok": o.OK(), "pen": []tf.M{}, "ret": []tf.M{}}
 	if o.Panic != nil {
 		m["panic"] = fmt.Sprint(o.Panic)
 	}
@@ -125,6 +141,24 @@ func statusName(st tsstypes.SigningStatus) string {
 }
 
 func (s *session) memberName(addr string) string { return s.w.Name(addr) }
+
+// grpNo: 1 = the current group, 2 = the incoming group of the transition, 0 = unknown
+func (s *session) grpNo(gid tss.GroupID) int {
+	if gid == s.g.ID {
+		return 1
+	}
+	if s.g2 != nil && gid == s.g2.ID {
+		return 2
+	}
+	return 0
+}
+
+func (s *session) kit(gid tss.GroupID) *tsskit.Group {
+	if s.g2 != nil && gid == s.g2.ID {
+		return s.g2
+	}
+	return s.g
+}
 
 func (s *session) project() tf.M {
 	ctx := s.r.Ctx
@@ -174,23 +208,46 @@ func (s *session) project() tf.M {
 		nser[n] = s.nser[n]
 	}
 
-	tssAct, ownAct, cool := tf.M{}, tf.M{}, tf.M{}
-	for _, m := range s.g.Members {
-		n := m.Acc.Name
-		ta, oa, cd := false, false, 0
-		if tm, err := tk.GetMember(ctx, gid, m.ID); err == nil {
-			ta = tm.IsActive
+	// member flags per group: [current, incoming]; the incoming group's flags are read only while the
+	// transition awaits execution (before that the owner module has no members for it)
+	trState, trSig := "none", uint64(0)
+	if t, found := bk.GetGroupTransition(ctx); found {
+		switch t.Status {
+		case bandtsstypes.TRANSITION_STATUS_CREATING_GROUP:
+			trState = "pending"
+		case bandtsstypes.TRANSITION_STATUS_WAITING_SIGN:
+			trState, trSig = "sign", uint64(t.SigningID)
+		case bandtsstypes.TRANSITION_STATUS_WAITING_EXECUTION:
+			trState = "exec"
+		default:
+			trState = "other"
 		}
-		if bm, err := bk.GetMember(ctx, m.Acc.Addr, gid); err == nil {
-			oa = bm.IsActive
-			if !oa {
-				end := bm.Since.Add(bp.InactivePenaltyDuration).Unix()
-				if end > s.now() {
-					cd = int(end - s.now())
+	} else if s.trStarted {
+		trState = "dropped"
+	}
+	tssAct, ownAct, cool := []tf.M{}, []tf.M{}, []tf.M{}
+	for gi, grp := range []*tsskit.Group{s.g, s.g2} {
+		ta, oa, cd := tf.M{}, tf.M{}, tf.M{}
+		for _, m := range s.g.Members {
+			n := m.Acc.Name
+			ta[n], oa[n], cd[n] = false, false, 0
+			if grp == nil || (gi == 1 && trState != "exec") {
+				continue
+			}
+			if tm, err := tk.GetMember(ctx, grp.ID, m.ID); err == nil {
+				ta[n] = tm.IsActive
+			}
+			if bm, err := bk.GetMember(ctx, m.Acc.Addr, grp.ID); err == nil {
+				oa[n] = bm.IsActive
+				if !bm.IsActive {
+					end := bm.Since.Add(bp.InactivePenaltyDuration).Unix()
+					if end > s.now() {
+						cd[n] = int(end - s.now())
+					}
 				}
 			}
 		}
-		tssAct[n], ownAct[n], cool[n] = ta, oa, cd
+		tssAct, ownAct, cool = append(tssAct, ta), append(ownAct, oa), append(cool, cd)
 	}
 
 	count := tk.GetSigningCount(ctx)
@@ -202,9 +259,10 @@ func (s *session) project() tf.M {
 		cur := uint64(0)
 		if sg, err := tk.GetSigning(ctx, sid); err == nil {
 			cur = sg.CurrentAttempt
-			sigs = append(sigs, tf.M{"status": statusName(sg.Status), "attempt": int(sg.CurrentAttempt), "created": int(sg.CreatedHeight)})
+			sigs = append(sigs, tf.M{"status": statusName(sg.Status), "attempt": int(sg.CurrentAttempt), "created": int(sg.CreatedHeight),
+				"grp": s.grpNo(sg.GroupID)})
 		} else {
-			sigs = append(sigs, tf.M{"status": "MISSING", "attempt": 0, "created": 0})
+			sigs = append(sigs, tf.M{"status": "MISSING", "attempt": 0, "created": 0, "grp": 0})
 		}
 		scan := cur
 		if tp.MaxSigningAttempt > scan {
@@ -264,7 +322,8 @@ func (s *session) project() tf.M {
 		} else {
 			toks = append(toks, tf.M{"a": 0, "asg": []tf.M{}})
 		}
-		mapped = append(mapped, bk.GetSigningIDMapping(ctx, sid) != 0)
+		// the owner module still waits for the outcome: request mapping, or the transition waits for this signature
+		mapped = append(mapped, bk.GetSigningIDMapping(ctx, sid) != 0 || (trState == "sign" && trSig == id))
 		nSucc = append(nSucc, s.nSucc[id])
 		nFail = append(nFail, s.nFail[id])
 	}
@@ -280,7 +339,7 @@ func (s *session) project() tf.M {
 		"h": int(s.r.Height), "p": p, "q": q, "deN": deN, "nser": nser,
 		"tssAct": tssAct, "ownAct": ownAct, "cool": cool,
 		"count": int(count), "sig": sigs, "att": atts, "leak": leak, "tok": toks,
-		"exps": exps, "pend": pend, "mapped": mapped, "nSucc": nSucc, "nFail": nFail,
+		"exps": exps, "pend": pend, "mapped": mapped, "nSucc": nSucc, "nFail": nFail, "tr": trState,
 	}
 }
 
@@ -288,15 +347,39 @@ func (s *session) project() tf.M {
 // events -> assignments / outcome counters
 // ---------------------------------------------------------------------------------------------
 
-// noteEvents reads the request_signature / signing_success / signing_failed / inactive_status events of
-// one step; returns the assignments (in event order) and the penalised members.
-func (s *session) noteEvents(o world.Outcome) (ret []tf.M, pen []string) {
-	ret, pen = []tf.M{}, []string{}
+// noteEvents reads the create_signing_request / request_signature / signing_success / signing_failed /
+// inactive_status events of one step; returns the assignments (in event order; each with its group and,
+// inside an end-block, whether it was made after the tss end-blocker's expiry phase: retries and tunnel
+// packets) and the penalised (group, member) pairs.
+func (s *session) noteEvents(o world.Outcome, endBlock bool) (ret []tf.M, pen []tf.M) {
+	ret, pen = []tf.M{}, []tf.M{}
+	attr := func(e abci.Event, key string) string {
+		for _, at := range e.Attributes {
+			if at.Key == key {
+				return at.Value
+			}
+		}
+		return ""
+	}
 	for _, e := range o.Events {
 		switch e.Type {
+		case tsstypes.EventTypeCreateSigning:
+			id, _ := strconv.ParseUint(attr(e, tsstypes.AttributeKeySigningID), 10, 64)
+			ct := attr(e, tsstypes.AttributeKeyContentType)
+			switch {
+			case strings.Contains(ct, "TunnelSignatureOrder"):
+				s.src[id] = "tunnel"
+			case strings.Contains(ct, "OracleResultSignatureOrder"):
+				s.src[id] = "oracle"
+			case strings.Contains(ct, "GroupTransitionSignatureOrder"):
+				s.src[id] = "transition"
+			default:
+				s.src[id] = "direct"
+			}
 		case tsstypes.EventTypeRequestSignature:
 			var id uint64
 			a := 0
+			g := 0
 			names := []string{}
 			var addr string
 			var pubD []byte
@@ -305,6 +388,9 @@ func (s *session) noteEvents(o world.Outcome) (ret []tf.M, pen []string) {
 				switch at.Key {
 				case tsstypes.AttributeKeySigningID:
 					id, _ = strconv.ParseUint(at.Value, 10, 64)
+				case tsstypes.AttributeKeyGroupID:
+					gid, _ := strconv.ParseUint(at.Value, 10, 64)
+					g = s.grpNo(tss.GroupID(gid))
 				case tsstypes.AttributeKeyAttempt:
 					a, _ = strconv.Atoi(at.Value)
 				case tsstypes.AttributeKeyAddress:
@@ -330,30 +416,25 @@ func (s *session) noteEvents(o world.Outcome) (ret []tf.M, pen []string) {
 			}
 			s.tok[id] = rec
 			sort.Strings(names)
-			ret = append(ret, tf.M{"id": int(id), "a": a, "S": names})
+			post := endBlock && (a > 1 || s.src[id] == "tunnel")
+			ret = append(ret, tf.M{"id": int(id), "a": a, "g": g, "S": names, "post": post})
 		case tsstypes.EventTypeSigningSuccess:
-			for _, at := range e.Attributes {
-				if at.Key == tsstypes.AttributeKeySigningID {
-					id, _ := strconv.ParseUint(at.Value, 10, 64)
-					s.nSucc[id]++
-				}
-			}
+			id, _ := strconv.ParseUint(attr(e, tsstypes.AttributeKeySigningID), 10, 64)
+			s.nSucc[id]++
 		case tsstypes.EventTypeSigningFailed:
-			for _, at := range e.Attributes {
-				if at.Key == tsstypes.AttributeKeySigningID {
-					id, _ := strconv.ParseUint(at.Value, 10, 64)
-					s.nFail[id]++
-				}
-			}
+			id, _ := strconv.ParseUint(attr(e, tsstypes.AttributeKeySigningID), 10, 64)
+			s.nFail[id]++
 		case bandtsstypes.EventTypeInactiveStatus:
-			for _, at := range e.Attributes {
-				if at.Key == bandtsstypes.AttributeKeyAddress {
-					pen = append(pen, s.memberName(at.Value))
-				}
-			}
+			gid, _ := strconv.ParseUint(attr(e, bandtsstypes.AttributeKeyGroupID), 10, 64)
+			pen = append(pen, tf.M{"g": s.grpNo(tss.GroupID(gid)), "m": s.memberName(attr(e, bandtsstypes.AttributeKeyAddress))})
 		}
 	}
-	sort.Strings(pen)
+	sort.Slice(pen, func(i, j int) bool {
+		if pen[i]["g"].(int) != pen[j]["g"].(int) {
+			return pen[i]["g"].(int) < pen[j]["g"].(int)
+		}
+		return pen[i]["m"].(string) < pen[j]["m"].(string)
+	})
 	return ret, pen
 }
 
@@ -441,7 +522,8 @@ func (d *Driver) RunScript(sc tf.Script) {
 	w := d.world()
 	s := &session{d: d, w: w, r: w.Branch(), acc: map[string]world.Account{}, des: map[string]tsskit.DE{},
 		serial: map[string]map[string]int{}, nser: map[string]int{}, tok: map[uint64]*tokRec{},
-		prevKey: map[uint64]map[string]string{}, nSucc: map[uint64]int{}, nFail: map[uint64]int{}, flags: map[string]bool{}}
+		prevKey: map[uint64]map[string]string{}, nSucc: map[uint64]int{}, nFail: map[uint64]int{}, flags: map[string]bool{},
+		src: map[uint64]string{}}
 	var members []world.Account
 	for i := 0; i < NMember; i++ {
 		a := w.Accts[i]
@@ -466,12 +548,16 @@ func (d *Driver) RunScript(sc tf.Script) {
 	s.penalty = tf.Int(sc.C, "penalty", 1)
 	initDE := tf.Int(sc.C, "initDE", 0)
 	s.oracleOn = tf.Bool(sc.C, "oracle", false)
+	s.tunOn = tf.Bool(sc.C, "tunnel", false)
+	s.trOn = tf.Bool(sc.C, "trans", false)
 
 	// environment: parameters of this trace, the signing group
 	s.setTssParams(maxDE, period, maxAtt)
 	bk := w.App.BandtssKeeper
 	bp := bk.GetParams(s.r.Ctx)
 	bp.InactivePenaltyDuration = time.Duration(s.penalty) * time.Second
+	bp.MinTransitionDuration = time.Second
+	bp.MaxTransitionDuration = 1000000 * time.Second // the transition is never executed inside a trace
 	if err := bk.SetParams(s.r.Ctx, bp); err != nil {
 		panic(err)
 	}
@@ -486,6 +572,9 @@ func (d *Driver) RunScript(sc tf.Script) {
 				panic(fmt.Sprint("prelude oracle activate failed: ", o.Err))
 			}
 		}
+	}
+	if s.tunOn {
+		s.setupTunnel()
 	}
 	d.W.Reset(sc.C, s.project(), sc.Steps)
 	d.St.Traces++
@@ -504,7 +593,8 @@ func (d *Driver) RunScript(sc tf.Script) {
 	for k := range s.flags {
 		d.St.Count[k]++
 	}
-	if s.flags["timeout"] || s.flags["retry"] || s.flags["resetPending"] || s.flags["rollback"] {
+	if s.flags["timeout"] || s.flags["retry"] || s.flags["resetPending"] || s.flags["rollback"] ||
+		s.flags["tunnelDropped"] || s.flags["handoverDropped"] || s.flags["incomingFailed"] {
 		h := sc.Hash()
 		if !d.St.Distinct[h] {
 			d.St.Distinct[h] = true
@@ -558,6 +648,125 @@ func (s *session) deliver(msgs ...sdk.Msg) world.Outcome {
 	return out
 }
 
+// setupTunnel (environment): one TSS-route tunnel created, funded and left inactive through the real tunnel
+// msg server; its feed price is installed with the feeds keeper.  The driver decides per block whether the
+// tunnel produces a packet by (de)activating it with the real messages and by moving the feed price.
+func (s *session) setupTunnel() {
+	app := s.w.App
+	tp := app.TunnelKeeper.GetParams(s.r.Ctx)
+	tp.MinDeposit = sdk.NewCoins(sdk.NewInt64Coin("uband", 1000))
+	tp.BasePacketFee = sdk.NewCoins(sdk.NewInt64Coin("uband", 10))
+	tp.MinInterval, tp.MaxInterval = 1, 1000000
+	if err := app.TunnelKeeper.SetParams(s.r.Ctx, tp); err != nil {
+		panic(err)
+	}
+	s.tunPrice = 1000
+	s.setTunPrice()
+	devs := []tunneltypes.SignalDeviation{tunneltypes.NewSignalDeviation(tunSignal, 1000, 1000)}
+	msg, err := tunneltypes.NewMsgCreateTSSTunnel(devs, 1000000, "eth", "0xverif", feedstypes.ENCODER_FIXED_POINT_ABI,
+		sdk.NewCoins(sdk.NewInt64Coin("uband", 1000)), s.reqAcc.Addr.String())
+	if err != nil {
+		panic(err)
+	}
+	if o := s.deliver(msg); !o.OK() {
+		panic(fmt.Sprint("tunnel set-up failed: ", o.Err, o.Panic))
+	}
+	s.tunID = app.TunnelKeeper.GetTunnelCount(s.r.Ctx)
+	s.fundTunnel(true)
+}
+
+func (s *session) setTunPrice() {
+	s.w.App.FeedsKeeper.SetPrice(s.r.Ctx, feedstypes.NewPrice(feedstypes.PRICE_STATUS_AVAILABLE, tunSignal, uint64(s.tunPrice), s.r.Time.Unix()))
+}
+
+// fundTunnel (environment): the fee payer of the tunnel holds plenty / nothing.
+func (s *session) fundTunnel(funded bool) {
+	t, err := s.w.App.TunnelKeeper.GetTunnel(s.r.Ctx, s.tunID)
+	if err != nil {
+		panic(err)
+	}
+	fp := sdk.MustAccAddressFromBech32(t.FeePayer)
+	bal := s.w.App.BankKeeper.GetBalance(s.r.Ctx, fp, "uband")
+	var msg sdk.Msg
+	switch {
+	case funded && bal.Amount.LT(sdkmath.NewInt(500_000)):
+		msg = banktypes.NewMsgSend(s.reqAcc.Addr, fp, sdk.NewCoins(sdk.NewInt64Coin("uband", 1_000_000)))
+	case !funded && bal.Amount.IsPositive():
+		msg = banktypes.NewMsgSend(fp, s.reqAcc.Addr, sdk.NewCoins(bal))
+	default:
+		return
+	}
+	if o := s.deliver(msg); !o.OK() {
+		panic(fmt.Sprint("tunnel funding failed: ", o.Err, o.Panic))
+	}
+}
+
+// armTunnel (environment): active with a feed price that deviates from the last packet, or inactive.
+func (s *session) armTunnel(on bool) {
+	t, err := s.w.App.TunnelKeeper.GetTunnel(s.r.Ctx, s.tunID)
+	if err != nil {
+		panic(err)
+	}
+	creator := s.reqAcc.Addr.String()
+	if on {
+		if s.tunPrice == 1000 {
+			s.tunPrice = 3000
+		} else {
+			s.tunPrice = 1000
+		}
+		s.setTunPrice()
+		if !t.IsActive {
+			if o := s.deliver(tunneltypes.NewMsgActivate(s.tunID, creator)); !o.OK() {
+				panic(fmt.Sprint("tunnel activation failed: ", o.Err, o.Panic))
+			}
+		}
+	} else if t.IsActive {
+		if o := s.deliver(tunneltypes.NewMsgDeactivate(s.tunID, creator)); !o.OK() {
+			panic(fmt.Sprint("tunnel deactivation failed: ", o.Err, o.Panic))
+		}
+	}
+}
+
+// startTransition: MsgTransitionGroup from the authority (real handler: the incoming group is created in
+// round 1), then - environment, exactly like fam_bandtss "DkgDone" - the outcome of its key generation is
+// installed at round 3 and the group is queued for the tss end-blocker.
+func (s *session) startTransition() world.Outcome {
+	app := s.w.App
+	bk, tk := app.BandtssKeeper, app.TSSKeeper
+	var members []string
+	var accs []world.Account
+	for _, m := range s.g.Members {
+		members = append(members, m.Acc.Addr.String())
+		accs = append(accs, m.Acc)
+	}
+	msg := bandtsstypes.NewMsgTransitionGroup(members, uint64(s.g.T), s.r.Time.Add(500000*time.Second), bk.GetAuthority())
+	o := s.deliver(msg)
+	if !o.OK() {
+		return o
+	}
+	tr, found := bk.GetGroupTransition(s.r.Ctx)
+	if !found {
+		panic("transition not stored")
+	}
+	gid := tr.IncomingGroupID
+	kg := tsskit.NewGroup("tsssigning-incoming", s.g.T, accs)
+	kg.ID = gid
+	grp, err := tk.GetGroup(s.r.Ctx, gid)
+	if err != nil {
+		panic(err)
+	}
+	grp.Status = tsstypes.GROUP_STATUS_ROUND_3
+	grp.PubKey = kg.PubKey
+	tk.SetGroup(s.r.Ctx, grp)
+	for _, m := range kg.Members {
+		tk.SetMember(s.r.Ctx, tsstypes.NewMember(m.ID, gid, m.Acc.Addr, m.Pub, false, true))
+	}
+	tk.AddPendingProcessGroup(s.r.Ctx, gid)
+	s.g2 = kg
+	s.trStarted = true
+	return o
+}
+
 // submitDEs registers k fresh pairs for the address through MsgSubmitDEs; serials are consumed only
 // if the message is accepted.
 func (s *session) submitDEs(n string, k int) world.Outcome {
@@ -587,6 +796,24 @@ func (s *session) requestMsg() sdk.Msg {
 		panic(err)
 	}
 	return msg
+}
+
+func (s *session) trState() string {
+	if t, found := s.w.App.BandtssKeeper.GetGroupTransition(s.r.Ctx); found {
+		switch t.Status {
+		case bandtsstypes.TRANSITION_STATUS_CREATING_GROUP:
+			return "pending"
+		case bandtsstypes.TRANSITION_STATUS_WAITING_SIGN:
+			return "sign"
+		case bandtsstypes.TRANSITION_STATUS_WAITING_EXECUTION:
+			return "exec"
+		}
+		return "other"
+	}
+	if s.trStarted {
+		return "dropped"
+	}
+	return "none"
 }
 
 func (s *session) anyWaitingAttempt() bool {
@@ -624,16 +851,46 @@ func (s *session) apply(step tf.M) {
 		o := s.deliver(&tsstypes.MsgResetDE{Sender: s.acc[who].Addr.String()})
 		s.d.W.Step("ResetDE", tf.M{"a": who}, outc(o), s.project())
 	case "Request":
-		o := s.deliver(s.requestMsg())
+		src := tf.Str(step, "src", "direct")
+		if src == "tunnel" && !s.tunOn {
+			src = "direct"
+		}
+		var o world.Outcome
+		if src == "tunnel" {
+			// MsgTriggerTunnel by the creator of an active, funded tunnel: packet + signing in this transaction
+			s.fundTunnel(true)
+			s.armTunnel(true)
+			o = s.deliver(tunneltypes.NewMsgTriggerTunnel(s.tunID, s.reqAcc.Addr.String()))
+		} else {
+			o = s.deliver(s.requestMsg())
+		}
 		oc := outc(o)
 		if o.OK() {
-			ret, _ := s.noteEvents(o)
+			ret, _ := s.noteEvents(o, false)
 			oc["ret"] = ret
 			s.flags["request"] = true
+			if src == "tunnel" {
+				s.flags["tunnelTrigger"] = true
+			}
+			if len(ret) > 1 {
+				s.flags["incomingSigning"] = true
+			} else if s.trState() == "exec" {
+				s.flags["incomingFailed"] = true
+			}
 		} else {
 			s.flags["requestRej"] = true
+			if src == "tunnel" {
+				s.flags["tunnelTriggerRej"] = true
+			}
 		}
-		s.d.W.Step("Request", tf.M{}, oc, s.project())
+		s.d.W.Step("Request", tf.M{"src": src}, oc, s.project())
+	case "Transition":
+		if !s.trOn || s.trStarted {
+			return // one transition per history (not logged: the step makes no sense on the real state)
+		}
+		o := s.startTransition()
+		s.flags["transition"] = true
+		s.d.W.Step("Transition", tf.M{}, outc(o), s.project())
 	case "RequestRollback":
 		// the signing is created by the first message; the second message of the same transaction
 		// fails in its handler (the requester is not a member of the group): everything is undone
@@ -652,6 +909,13 @@ func (s *session) apply(step tf.M) {
 		s.d.W.Step("RequestRollback", tf.M{"created": created}, outc(o), s.project())
 	case "SubmitSig":
 		id := uint64(tf.Int(step, "id", 1))
+		if tf.Str(step, "sid", "") == "handover" {
+			// role-relative: the hand-over signing of the transition (a signing that does not exist if there is none)
+			id = s.w.App.TSSKeeper.GetSigningCount(s.r.Ctx) + 1
+			if t, found := s.w.App.BandtssKeeper.GetGroupTransition(s.r.Ctx); found && t.SigningID != 0 {
+				id = uint64(t.SigningID)
+			}
+		}
 		who := s.bind(tf.Sub(step, "who"), id)
 		kind := tf.Str(step, "kind", "good")
 		acc := s.acc[who]
@@ -664,6 +928,9 @@ func (s *session) apply(step tf.M) {
 		sig := dummySig()
 		valid := false
 		if sg, err := tk.GetSigning(s.r.Ctx, tss.SigningID(id)); err == nil && mem != nil {
+			if m, ok := s.kit(sg.GroupID).ByAddr(acc.Addr.String()); ok { // the share of the signing's group
+				mem = &m
+			}
 			if sa, err := tk.GetSigningAttempt(s.r.Ctx, tss.SigningID(id), sg.CurrentAttempt); err == nil {
 				if am, ok := tsstypes.AssignedMembers(sa.AssignedMembers).FindAssignedMember(mid); ok {
 					de, have := s.des[tsskit.PubKey(am.PubD, am.PubE)]
@@ -699,11 +966,23 @@ func (s *session) apply(step tf.M) {
 		s.d.W.Step("SubmitSig", tf.M{"m": who, "id": int(id), "valid": valid, "kind": kind}, outc(o), s.project())
 	case "Activate":
 		who := s.bind(tf.Sub(step, "who"), 0)
-		o := s.deliver(&bandtsstypes.MsgActivate{Sender: s.acc[who].Addr.String(), GroupID: s.g.ID})
+		g := tf.Int(step, "g", 1)
+		gid := s.g.ID
+		if g == 2 {
+			if s.g2 == nil {
+				g = 1
+			} else {
+				gid = s.g2.ID
+			}
+		}
+		o := s.deliver(&bandtsstypes.MsgActivate{Sender: s.acc[who].Addr.String(), GroupID: gid})
 		if o.OK() {
 			s.flags["activate"] = true
+			if g == 2 {
+				s.flags["activateIncoming"] = true
+			}
 		}
-		s.d.W.Step("Activate", tf.M{"a": who}, outc(o), s.project())
+		s.d.W.Step("Activate", tf.M{"a": who, "g": g}, outc(o), s.project())
 	case "SetPeriod":
 		p := tf.Int(step, "p", 1)
 		params := tk.GetParams(s.r.Ctx)
@@ -722,24 +1001,62 @@ func (s *session) apply(step tf.M) {
 		for i := 0; i < npre; i++ {
 			s.oracleRequest()
 		}
+		ntun, funded := tf.Int(step, "ntun", 0), tf.Bool(step, "funded", true)
+		if !s.tunOn {
+			ntun = 0
+		}
+		if s.tunOn {
+			// environment: the tunnel is armed (active, price moved) exactly when the script wants a packet
+			if ntun > 0 {
+				s.fundTunnel(funded)
+			}
+			s.armTunnel(ntun > 0)
+		}
+		trBefore := s.trState()
 		o := s.r.EndBlock()
-		ret, pen := s.noteEvents(o)
-		created := 0
+		ret, pen := s.noteEvents(o, true)
+		cpre, cpost, hand := 0, 0, false
 		for _, r := range ret {
-			if r["a"].(int) == 1 {
-				created++
-			} else {
+			id := uint64(r["id"].(int))
+			switch {
+			case r["a"].(int) > 1:
 				s.flags["retry"] = true
+			case r["g"].(int) == 2:
+				s.flags["incomingSigning"] = true
+			case s.src[id] == "tunnel":
+				cpost++
+			case s.src[id] == "transition":
+				hand = true
+			default:
+				cpre++
 			}
 		}
-		if created > 0 {
+		if cpre > 0 {
 			s.flags["oracleSigning"] = true
+		}
+		if cpost > 0 {
+			s.flags["tunnelPacket"] = true
+		}
+		if ntun > 0 && funded && cpost == 0 {
+			s.flags["tunnelDropped"] = true
+		}
+		if ntun > 0 && !funded {
+			s.flags["tunnelUnfunded"] = true
+		}
+		if hand {
+			s.flags["handover"] = true
+		}
+		if trBefore == "pending" && !hand {
+			s.flags["handoverDropped"] = true
+		}
+		if trBefore != "exec" && s.trState() == "exec" {
+			s.flags["handoverSigned"] = true
 		}
 		if o.Count(tsstypes.EventTypeSigningFailed) > 0 {
 			s.flags["fallen"] = true
 			s.flags["timeout"] = true
 		}
-		if len(ret) > created {
+		if s.flags["retry"] {
 			s.flags["timeout"] = true
 		}
 		if o.Count(tsstypes.EventTypeSigningSuccess) > 0 {
@@ -749,11 +1066,11 @@ func (s *session) apply(step tf.M) {
 			s.flags["penalty"] = true
 		}
 		ob := s.r.BeginBlock(1)
-		oc := tf.M{"ok": o.OK() && ob.OK(), "pen": pen, "ret": ret, "created": created}
+		oc := tf.M{"ok": o.OK() && ob.OK(), "pen": pen, "ret": ret, "npre": cpre, "npost": cpost, "hand": hand}
 		if o.Panic != nil {
 			oc["panic"] = fmt.Sprint(o.Panic)
 		}
-		s.d.W.Step("EndBlock", tf.M{"npre": npre}, oc, s.project())
+		s.d.W.Step("EndBlock", tf.M{"npre": npre, "ntun": ntun, "funded": funded}, oc, s.project())
 	default:
 		panic("unknown step " + fmt.Sprint(step))
 	}
@@ -801,13 +1118,20 @@ func RandomScript(rng *rand.Rand, mode string) tf.Script {
 	penalty := pick(rng, 1, 1, 2, 3, 5)
 	initDE := rng.Intn(maxDE + 1)
 	oracle := rng.Intn(4) == 0
-	c := tf.M{"t": t, "maxDE": maxDE, "maxAtt": maxAtt, "period": period, "penalty": penalty, "initDE": initDE, "oracle": oracle}
+	tunnel := rng.Intn(3) == 0
+	trans := rng.Intn(3) == 0
+	c := tf.M{"t": t, "maxDE": maxDE, "maxAtt": maxAtt, "period": period, "penalty": penalty, "initDE": initDE,
+		"oracle": oracle, "tunnel": tunnel, "trans": trans}
+	transAt := -1
+	if trans {
+		transAt = rng.Intn(4) // the block in which governance starts the transition
+	}
 	var steps []tf.M
 	nblocks := 5 + rng.Intn(6)
 	reqs := 0
 	reg := 0
 	member := func() tf.M { return tf.M{"role": "member", "k": 1 + rng.Intn(NMember)} }
-	topUp := rng.Intn(10) < 6    // members refill their queues at the start of a block (like the cylinder daemon)
+	topUp := rng.Intn(10) < 6 || trans // members refill their queues at the start of a block (like the cylinder daemon)
 	mayChange := rng.Intn(8) == 0 // governance changes signing_period in this history
 	for b := 0; b < nblocks; b++ {
 		if topUp {
@@ -820,6 +1144,17 @@ func RandomScript(rng *rand.Rand, mode string) tf.Script {
 			}
 		}
 		nmsg := 1 + rng.Intn(6)
+		if b == transAt {
+			steps = append(steps, tf.M{"e": "Transition"})
+		}
+		if trans && b == transAt+1 {
+			reqs++ // the hand-over signing, if its creation succeeded
+			if rng.Intn(5) > 0 { // usually the current group signs the hand-over message
+				for k := 1; k <= t; k++ {
+					steps = append(steps, tf.M{"e": "SubmitSig", "sid": "handover", "kind": "good", "who": tf.M{"role": "assigned", "k": k}})
+				}
+			}
+		}
 		for i := 0; i < nmsg; i++ {
 			x := rng.Intn(100)
 			wDE, wReset, wReq, wRoll, wSig, wAct := 24, 5, 16, 4, 38, 8
@@ -849,7 +1184,14 @@ func RandomScript(rng *rand.Rand, mode string) tf.Script {
 					continue
 				}
 				reqs++
-				steps = append(steps, tf.M{"e": "Request"})
+				src := "direct"
+				if tunnel && rng.Intn(3) == 0 {
+					src = "tunnel"
+				}
+				steps = append(steps, tf.M{"e": "Request", "src": src})
+				if trans && b > transAt+1 {
+					reqs++ // the incoming group is asked too (best effort)
+				}
 			case x < wDE+wReset+wReq+wRoll:
 				steps = append(steps, tf.M{"e": "RequestRollback"})
 			case x < wDE+wReset+wReq+wRoll+wSig:
@@ -893,7 +1235,11 @@ func RandomScript(rng *rand.Rand, mode string) tf.Script {
 				if rng.Intn(10) == 0 {
 					who = tf.M{"role": "stranger", "k": 1}
 				}
-				steps = append(steps, tf.M{"e": "Activate", "who": who})
+				g := 1
+				if trans && b > transAt+1 && rng.Intn(3) == 0 {
+					g = 2
+				}
+				steps = append(steps, tf.M{"e": "Activate", "who": who, "g": g})
 			default:
 				if mayChange && rng.Intn(2) == 0 && reqs > 0 {
 					steps = append(steps, tf.M{"e": "SetPeriod", "p": 1 + rng.Intn(3)})
@@ -905,11 +1251,19 @@ func RandomScript(rng *rand.Rand, mode string) tf.Script {
 			npre = 1 + rng.Intn(2)
 			reqs += npre
 		}
-		steps = append(steps, tf.M{"e": "EndBlock", "npre": npre})
+		ntun, funded := 0, true
+		if tunnel && rng.Intn(3) == 0 && reqs < 6 {
+			ntun = 1
+			funded = rng.Intn(6) > 0
+			if funded {
+				reqs++
+			}
+		}
+		steps = append(steps, tf.M{"e": "EndBlock", "npre": npre, "ntun": ntun, "funded": funded})
 	}
 	// run out the clock so that every signing terminates
 	for i := 0; i < maxAtt*3+1; i++ {
-		steps = append(steps, tf.M{"e": "EndBlock", "npre": 0})
+		steps = append(steps, tf.M{"e": "EndBlock", "npre": 0, "ntun": 0})
 	}
 	return tf.Script{Fam: "TssSigning", C: c, Steps: steps}
 }
